@@ -29,7 +29,7 @@ RULE = (
     "non-trivial = b != 0; distinct = sha1(A, b)"
 )
 BOUNDS = {
-    "quick": "n<=3 all monomial Q8 matrices (8+128+3072) x every e_k; n=4: 24 perms x 16 phase patterns; scaled identity/monomial x 8 scales; diagonal multiplicity compositions x eigenvector subsets n<=4; structured/generic classes n<=4 x 3 scales x 4 rhs; tol {1e-2,1e-6,1e-12}; caps 0..n and None; precond {none,left_lu}; dense/sparse; near-eigenvector right-hand sides with perturbation 5e-3/5e-7/5e-11 and 2^-30..2^-52; exhaustive small-integer systems: all nonsingular real 2x2 over -2..2 and quaternion 2x2 over {0,1,-1,i,j,k} x every non-zero rhs over the alphabet, all nonsingular real 3x3 over {-1,0,1} x 4 rhs; injected breakdown at every (cycle, step) n<=6; injected LU zero pivot",
+    "quick": "n<=3 all monomial Q8 matrices (8+128+3072) x every e_k; n=4: 24 perms x 16 phase patterns; scaled identity/monomial x 8 scales; diagonal multiplicity compositions x eigenvector subsets n<=4; structured/generic classes n<=4 x 3 scales x 4 rhs; tol {1e-2,1e-6,1e-12}; caps 0..n and None; precond {none,left_lu}; dense/sparse; near-eigenvector right-hand sides with perturbation 5e-3/5e-7/5e-11 and 2^-30..2^-52; exhaustive small-integer systems: all nonsingular real 2x2 over -2..2 and quaternion 2x2 over {0,1,-1,i,j,k} x every non-zero rhs over the alphabet, all nonsingular real 3x3 over {-1,0,1} x 4 rhs; injected breakdown at every (cycle, step) n<=6; injected LU zero pivot; exactly Hermitian indefinite ill-conditioned systems n in {8,12,16}, cond 1e3/1e5",
     "thorough": "n=4 all 98304 monomial matrices (strided 1/8), n=5 structured classes; all nonsingular real 3x3 over {-1,0,1,2} x 4 rhs and quaternion 3x3 over {0,1,i,j} x 2 rhs",
 }
 WALL_BUDGET = {"quick": 600, "thorough": 3400}
